@@ -20,6 +20,9 @@ CONSTANTS
   BugExtendNoToken = FALSE
   BugThreshold = FALSE
   BugIgnoreInval = FALSE
+  BugLostByCause = FALSE
+  BugNilNoGate = FALSE
+  DiscParkedOnly = FALSE
   Record = FALSE
   GenLen = 0
 INVARIANTS MutualExclusion
